@@ -2,6 +2,7 @@ import CodeLimit.Model.Basic
 import CodeLimit.Model.Regex
 import CodeLimit.Model.Pattern
 import CodeLimit.Model.Scopes
+import CodeLimit.Model.Check
 /-!
 Line-protocol driver for the executable models (`lean_exe cldriver`).
 One request per line, one reply per line, words separated by single blanks.
@@ -142,6 +143,24 @@ def handle (langs : Array Language) (line : String) : String :=
           | .ok D => match findAll (dfaMachine D tokAcceptor) toks.toList with
             | .error e => s!"err {e.code}"
             | .ok ms => s!"ok {ms.length}" ++ String.join (ms.map fun m => s!" {m.s} {m.e} {m.toks.length}")
+    | "classify" => run do
+        let sgn ← nextNat; let n ← nextNat
+        let L : Int := if sgn == 1 then -(n : Int) else (n : Int)
+        let b (p : Prop) [Decidable p] : String := if p then "1" else "0"
+        return String.intercalate " " ["ok", toString (Gen.Logic.make_profile_bucket L), toString (Gen.Logic.make_count_profile_bucket L),
+          Gen.Logic.style_color L, Gen.Logic.emoji L, Gen.Logic.format_unit_color L,
+          b (Gen.Logic.check_counts_hard L), b (Gen.Logic.check_counts_unmaintainable L), b (Gen.Logic.check_lists L),
+          b (Gen.Logic.units_keeps L Gen.Logic.findings_threshold_text), b (Gen.Logic.units_keeps L Gen.Logic.findings_threshold_markdown),
+          b (Gen.Logic.md_cross_without_repository L), b (Gen.Logic.md_cross_with_repository L)]
+    | "check" => run do
+        let quiet ← nextNat; let nf ← nextNat
+        let mut files : Array (List Int) := #[]
+        for _ in [0:nf] do
+          let ms ← parseNats
+          files := files.push (ms.map (fun (n : Nat) => (n : Int)))
+        let o := checkCommand (quiet == 1) files.toList
+        return s!"ok {o.exitCode} {if o.printed then 1 else 0} {if o.saysRefactoring then 1 else 0} {o.count} {o.listed.length}" ++
+          String.join (o.listed.map fun l => s!" {l.length}" ++ String.join (l.map fun v => s!" {v}"))
     | "nocl" => run do
         let v ← parseStr
         return (if isNoclText v then "ok T" else "ok F")
